@@ -1,5 +1,5 @@
 import Mdns.Model.Encode
-import Mdns.Spec.RefParse
+import Mdns.Spec.Expect
 import Mdns.Driver.Wire
 /-
   Line-protocol executor and monitor for the encoder ops (C02).
@@ -152,21 +152,6 @@ def exec (op : String) (ts : List String) : Option String :=
   | _ => none
 
 /-! ### monitor -/
-
-/-- what an RFC 1035 reader must find for a record that was added with `now` -/
-def expRec (r : RecIn) (now : Nat) : Ref.Record :=
-  { name := labelsOf r.name, type := r.ty, cls := r.cls, flush := r.flush,
-    ttl := if now = 0 then r.ttl else (expires r - now) / 1000,
-    rdata := match r.rdata with
-      | .a ip => .a ip
-      | .aaaa ip => .aaaa ip
-      | .ptr n => .ptr (labelsOf n)
-      | .srv p w port h => .srv p w port (labelsOf h)
-      | .txt b => .txt b
-      | .hinfo c o => .other (c ++ o)
-      | .nsec n b => .other (n ++ b) }
-
-def expQ (q : QIn) : Ref.Question := { name := labelsOf q.name, qtype := q.ty, qclass := CLASS_IN }
 
 /-- names of a record as label sequences -/
 def recNames (r : Ref.Record) : List Ref.Name :=
